@@ -19,4 +19,7 @@ def run(prog, chk):
     C.destroy_once(prog, chk, "C04.c2")
     C.free_only_in_dtor(prog, chk, "C04.d")
     c04_alias.array_rules(prog, chk, "C04.arr")
+    # swap must hand the free list over together with the blocks it lives in: otherwise both containers pop the same slot
+    # (an element is constructed over a live one) and slots sit in blocks owned by the other container
+    C.swap_handover(prog, chk, "C04.f")
     c04_alias.alias_rules(prog, chk, "C04.e")
